@@ -65,7 +65,7 @@ def metadata(origin: int, ver: int):
 
 # ---------------------------------------------------------------------------
 class Node:
-    __slots__ = ("idx", "kind", "cls", "name", "parent", "flags", "children", "dkind", "vsrc", "gsrc", "msrc", "pgs", "ws", "tsrc")
+    __slots__ = ("idx", "kind", "cls", "name", "parent", "flags", "children", "dkind", "vsrc", "gsrc", "msrc", "pgs", "ws", "tsrc", "pver")
 
     def __init__(self, idx, kind, cls, name, parent, ws=1):
         self.idx = idx
@@ -85,6 +85,7 @@ class Node:
         self.pgs = {}  # name -> [data idx]
         self.ws = ws
         self.tsrc = None  # data only: index of the data whose type is shared (None = own)
+        self.pver = 0  # Curve only: 1 once parts were assigned
 
 
 class Model:
@@ -452,6 +453,13 @@ class TreeExec:
         _scribble(verts)
         nd.gsrc = new
 
+    def op_parts(self, o):
+        """Assign part labels to a Curve (no cell data attached): the segments follow."""
+        nd = self.model.nodes[o]
+        x = self.ent(o)
+        self._lib(lambda: setattr(x, "parts", np.array([0, 1, 1])))
+        nd.pver = 1
+
     def op_meta(self, e):
         nd = self.model.nodes[e]
         x = self.ent(e)
@@ -503,6 +511,7 @@ class TreeExec:
         nd = self.model.new(src.kind, src.cls, src.name, tgt_handle)
         nd.flags = dict(src.flags)
         nd.dkind, nd.vsrc, nd.gsrc, nd.msrc = src.dkind, src.vsrc, src.gsrc, src.msrc
+        nd.pver = src.pver
         self.uid[nd.idx] = new_entity.uid
         self.events.append(("copied", e, nd.idx))
         if hasattr(self, "_pairs"):
@@ -760,6 +769,10 @@ def enabled(model: Model, alpha: dict) -> list:
         ops += [["values", d.idx] for d in data if d.vsrc[1] < 2]
     if "vertices" in kinds:
         ops += [["vertices", o.idx] for o in objects if o.gsrc[1] < 1]
+    if "parts" in kinds:
+        for o in objects:
+            if o.cls == "Curve" and o.pver == 0 and not any(model.nodes[c].dkind == "fc" for c in o.children):
+                ops.append(["parts", o.idx])
     if "meta" in kinds:
         ops += [["meta", e.idx] for e in groups + objects if e.msrc[0] == e.idx and e.msrc[1] < 2]
     if "mk_group" in kinds and len(groups) < caps.get("groups", 3):
